@@ -49,6 +49,21 @@ class Ledger:
             if n > oldc.get(k, 0):
                 self.authors.setdefault(k, set()).add(who)
 
+    def ws_change_of_committed(self, old, new, committed, who):
+        """`who` changed only the whitespace of lines that are already committed: git blame will
+        assign the re-indented line to the new commit, so either the original author or `who`
+        may be reported (C01 quantifies over one commit cycle, C09 defines blame this way)."""
+        def exact(c):
+            return set((c or "").splitlines(keepends=True))
+        old_exact = exact(old)
+        old_norm = {norm(x) for x in old_exact}
+        committed_exact = exact(committed)
+        committed_norm = {norm(x) for x in committed_exact}
+        for ln in exact(new):
+            if ln not in old_exact and norm(ln) in old_norm and norm(ln) in committed_norm \
+                    and ln not in committed_exact:
+                self.authors.setdefault(norm(ln), set()).update((who, HUMAN))
+
     def who(self, line):
         """Set of acceptable authors for this text; None = unconstrained (blank / unknown)."""
         k = norm(line)
